@@ -178,16 +178,21 @@ def rule_declsrc(ctx):
                      "clause vector is an order-preserving map over lookup_type_declaration(..).xtors, each clause's tag and the tag of "
                      "the Invoke/Let in its body are the same xtor, and both use the same freshly renamed environment built from that "
                      "xtor's parameters")
+    # the functions that look a declaration up, by what they return (lookup_type_declaration on the pinned tree)
+    lookups = tuple(sorted({g["name"] for k_, g in fx.fns.items() if g["crate"] == "scc_core_lang" and "{" not in k_ and g.get("name") and
+                            g["locals"][0]["ty"].startswith("&") and re.search(r"TypeDeclaration(<[^<>]*>)?$", g["locals"][0]["ty"])}))
+    if not lookups:
+        raise AnalysisError("R-DECLSRC: no function of core_lang returns a reference to a type declaration")
     for key in ("core2axcut::statements::cut::shrink_unknown_cuts", "core2axcut::statements::cut::shrink_critical_pairs"):
         fn = Fn(fx.fn(key))
         flow = prov.make_flow(fn, fx, extra_names=())
         holder = "switch::Switch" if key.endswith("unknown_cuts") else "create::Create"
-        lst = [(s, r) for s, r in _agg_field_roots(fn, flow, holder, "clauses", fx=fx, stop_names=("lookup_type_declaration",))]
+        lst = [(s, r) for s, r in _agg_field_roots(fn, flow, holder, "clauses", fx=fx, stop_names=lookups)]
         # keep only those built by a map over a lookup (the integer special cases build literal vec![..])
         n_ok = 0
         for s, roots in lst:
             calls = {fn.term(o[1]).get("callee_name") if o[0] == "call" else o[1] for o in roots if o[0] in ("call", "hcall")}
-            if calls == {"lookup_type_declaration"} and all(o[0] in ("call", "hcall") for o in roots):
+            if calls and calls <= set(lookups) and all(o[0] in ("call", "hcall") for o in roots):
                 n_ok += 1
                 res.inst(key + ":clauses-from-declaration", s["sp"]["file"], s["sp"]["line"], "ok", "map over lookup_type_declaration(..).xtors")
             elif (any(o[0] == "agg" for o in roots) and not calls) or (calls and calls <= {"box_assume_init_into_vec_unsafe", "into_vec"}):
